@@ -24,6 +24,10 @@ type plogShared struct {
 	overruns int64  // "event buffer overrun" (subscription / filter subscription)
 	wfull    int64  // "output buffer full" (watcher / watch session)
 	errors   int64
+	calls    int64 // log calls seen
+	stallAt  int64 // the log call with this ordinal blocks its goroutine for stallFor (0: none)
+	stallFor int64 // nanoseconds
+	stalled  int32 // set once the stall has begun
 }
 
 type plog struct {
@@ -44,7 +48,20 @@ func (l *plog) next() uint64 {
 	return x
 }
 
+// armStall: the n-th log call from now blocks the goroutine that makes it for d - a library
+// goroutine that is descheduled for a long time at one of its log points.
+func (l *plog) armStall(n int64, d time.Duration) {
+	atomic.StoreInt64(&l.sh.stallFor, int64(d))
+	atomic.StoreInt64(&l.sh.stallAt, atomic.LoadInt64(&l.sh.calls)+n)
+}
+
+func (l *plog) stallBegun() bool { return atomic.LoadInt32(&l.sh.stalled) != 0 }
+
 func (l *plog) jitter() {
+	if n := atomic.AddInt64(&l.sh.calls, 1); n == atomic.LoadInt64(&l.sh.stallAt) {
+		atomic.StoreInt32(&l.sh.stalled, 1)
+		time.Sleep(time.Duration(atomic.LoadInt64(&l.sh.stallFor)))
+	}
 	if !l.sh.perturb {
 		return
 	}
